@@ -462,3 +462,45 @@ M('c02-sink-kwargs-drop-falsy-groups-afterwards', 'C02', 'R5', APP,
 M('c02-sink-kwargs-default-empty-string', 'C02', 'R5', APP,
   "                        params = m.groupdict()  # type: ignore[union-attr]\n",
   "                        params = m.groupdict('')  # type: ignore[union-attr]\n")
+
+# R9 the flavour flag of the default-responder helpers (sa-am02608)
+M('c02-set-default-responders-defaults-to-asgi', 'C02', 'R9', 'falcon/routing/util.py',
+  "def set_default_responders(method_map: MethodDict, asgi: bool = False) -> None:",
+  "def set_default_responders(method_map: MethodDict, asgi: bool = True) -> None:")
+M('c02-405-factory-defaults-to-asgi', 'C02', 'R9', 'falcon/responders.py',
+  "def create_method_not_allowed(\n    allowed_methods: Iterable[str], asgi: bool = False\n",
+  "def create_method_not_allowed(\n    allowed_methods: Iterable[str], asgi: bool = True\n")
+M('c02-options-factory-called-without-flag', 'C02', 'R9', 'falcon/routing/util.py',
+  "responders.create_default_options(allowed_methods, asgi=asgi)", "responders.create_default_options(allowed_methods)")
+M('c02-405-factory-called-with-negated-flag', 'C02', 'R9', 'falcon/routing/util.py',
+  "responders.create_method_not_allowed(allowed_methods, asgi=asgi)", "responders.create_method_not_allowed(allowed_methods, asgi=not asgi)")
+M('c02-router-relies-on-default-flavour', 'C02', 'R9', 'falcon/routing/compiled.py',
+  "        set_default_responders(method_map, asgi=asgi)\n", "        set_default_responders(method_map)\n", also=('C16',))
+# negative controls (exit 0): flag passed positionally; default spelled `bool(0)`-free constant `0`; the flag without a default;
+# parameter renamed consistently
+
+# R4: the 405 closures may read the class through an alias bound once in the factory and the method list through a list()/tuple()
+# copy taken there (negative control, exit 0: `error_cls = HTTPMethodNotAllowed; allowed = list(allowed_methods)` in the factory,
+# `raise error_cls(allowed)` in both responders; also tuple(...), and `HTTPMethodNotAllowed(list(allowed_methods))` in the closure).
+# Still reported: an alias of another class, an alias rebound on a branch, an empty copy, and the shared exception INSTANCE
+# built in the factory (seed s8-c19-1: `error = HTTPMethodNotAllowed(allowed_methods)` ... `raise error`).
+M2('c02-405-class-alias-of-another-error', 'C02', 'R4', [
+    {'file': 'falcon/responders.py',
+     'old': "    if asgi:\n\n        async def method_not_allowed_responder_async(",
+     'new': "    error_cls = HTTPNotFound\n\n    if asgi:\n\n        async def method_not_allowed_responder_async("},
+    {'file': 'falcon/responders.py',
+     'old': "            raise HTTPMethodNotAllowed(allowed_methods)\n\n        return method_not_allowed_responder_async",
+     'new': "            raise error_cls(allowed_methods)\n\n        return method_not_allowed_responder_async"},
+    {'file': 'falcon/responders.py',
+     'old': "        raise HTTPMethodNotAllowed(allowed_methods)\n\n    return method_not_allowed\n",
+     'new': "        raise error_cls(allowed_methods)\n\n    return method_not_allowed\n"}])
+M2('c02-405-list-copy-of-nothing', 'C02', 'R4', [
+    {'file': 'falcon/responders.py',
+     'old': "    if asgi:\n\n        async def method_not_allowed_responder_async(",
+     'new': "    allowed = list()\n\n    if asgi:\n\n        async def method_not_allowed_responder_async("},
+    {'file': 'falcon/responders.py',
+     'old': "            raise HTTPMethodNotAllowed(allowed_methods)\n\n        return method_not_allowed_responder_async",
+     'new': "            raise HTTPMethodNotAllowed(allowed)\n\n        return method_not_allowed_responder_async"},
+    {'file': 'falcon/responders.py',
+     'old': "        raise HTTPMethodNotAllowed(allowed_methods)\n\n    return method_not_allowed\n",
+     'new': "        raise HTTPMethodNotAllowed(allowed)\n\n    return method_not_allowed\n"}])
